@@ -18,6 +18,16 @@ func Main(prop string, sigPrefixes []string) {
 
 const Rule = "producer scenario = f(seed): brokers 1-3, partitions 1-4, Retry.Max 0-5, flush settings, idempotent, acks, version, codec, interceptors, 1-60 messages in bursts, fault script over the first 8 produce requests (retriable/fatal codes with or without append, connection drop before/after append, lost acknowledgement, leader move, metadata failure), optional early close. non-trivial = distinct (config class, fault kinds, outcome mix) in which at least one request was faulted or a message retried"
 
+// OracleOnly runs producer scenarios for their oracles alone (no trace lines for a model driver): used by checks
+// whose own driver does not speak the producer-trace protocol (C04, C16).
+func OracleOnly(run *hlib.Run, prop string, sigPrefixes []string, n int) {
+	noTrace = true
+	RunAll(run, prop, sigPrefixes, n)
+	noTrace = false
+}
+
+var noTrace bool
+
 // RunAll runs the producer scenarios of this worker (n = 0: tier default).
 func RunAll(run *hlib.Run, prop string, sigPrefixes []string, n int) {
 	if n == 0 {
@@ -116,6 +126,10 @@ func RunAll(run *hlib.Run, prop string, sigPrefixes []string, n int) {
 			} else {
 				run.Count("other-property-oracle:" + f.Sig)
 			}
+		}
+		if noTrace {
+			traces++
+			continue
 		}
 		tl := TraceLines(res)
 		run.Emit(tl[0], "ok") // reset
